@@ -43,7 +43,10 @@ theorem refines_OP_CAT : OpRefines .OP_CAT := by
   · simp [hs, hst]
   · simp [hs, hst]
   · simp [hs, hst]
-    constructor <;> simp_all
+    by_cases hb : 520 < b.length + a.length
+    · simp [hb]
+    · simp [hb]
+      constructor <;> simp_all
 
 theorem refines_OP_INVERT : OpRefines .OP_INVERT := by
   intro cx cfg e st fExec pc hc h hw
